@@ -1,4 +1,5 @@
-(** Model of the text forms of the temporal types:
+(** Model of the text forms of the temporal types, AS REPAIRED by the C22 fix commits
+    (time.rs e051995f, timestamp.rs 947265c2, date.rs 98c849c2, interval.rs 21946acd):
       crates/vibesql-types/src/temporal/date.rs       (Date::new, FromStr, Display)
       crates/vibesql-types/src/temporal/time.rs       (Time::new, FromStr, Display)
       crates/vibesql-types/src/temporal/timestamp.rs  (FromStr, strip_timezone_suffix,
@@ -7,11 +8,12 @@
                                                        parse_time_to_microseconds,
                                                        parse_seconds_to_microseconds, FromStr, Display)
       crates/vibesql-types/src/sql_value/display.rs   (the four temporal arms delegate)
-    Parsed values are the [sqlvalue]s of Value/SqlValue.v.  Every byte slice and every
-    fixed-width multiplication/addition of the Rust code is an explicit step that can yield
-    [RPanic].  Definitions only (proofs: TemporalLaws.v). *)
-From Coq Require Import List ZArith Bool.
+    Parsed values are the [sqlvalue]s of Value/SqlValue.v.  Every remaining byte slice of the Rust
+    code is an explicit step that can yield [RPanic] (they are all at positions returned by
+    [find]/[rfind] of an ASCII character; the theorems prove they never do); interval arithmetic is
+    saturating with the i32 / i64 bounds written out.  Definitions only (proofs: TemporalLaws.v). *)
 From Coq Require Import Strings.String.
+From Coq Require Import List ZArith Bool.
 From VibeSQL Require Import Value.SqlValue Value.Dec Value.RStr.
 Import ListNotations.
 Open Scope Z_scope.
@@ -24,11 +26,14 @@ Definition date_new (y m d : Z) : res sqlvalue :=
     if (1 <=? d) && (d <=? 31) then ROk (VDate y m d) else RErr
   else RErr.
 
-(** [<Date as FromStr>::from_str]: [s.split('-')] must give exactly three parts *)
+(** [<Date as FromStr>::from_str]: one leading '-' ([strip_prefix('-')]) is the sign of the year;
+    the rest is [split('-')] into exactly three parts; the year is parsed from ["-" + parts[0]]
+    when the sign was present *)
 Definition parse_date (s : str) : res sqlvalue :=
-  match split_on 45 s with
+  let nb := match s with c :: r => if c =? 45 then (true, r) else (false, s) | [] => (false, s) end in
+  match split_on 45 (snd nb) with
   | [a; b; c] =>
-      match parse_i32 a with
+      match parse_i32 (if fst nb then 45 :: a else a) with
       | None => RErr
       | Some y =>
           match parse_u8 b with
@@ -58,12 +63,9 @@ Definition time_new (h mi s ns : Z) : res sqlvalue :=
   else ROk (VTime h mi s ns).
 
 (** the fractional-seconds step of [Time::from_str]:
-    [let padded = format!("{:0<9}", frac); let truncated = &padded[..9.min(padded.len())];
-     truncated.parse::<u32>()] *)
+    [frac.chars().chain(repeat('0')).take(9).collect::<String>().parse::<u32>()] *)
 Definition parse_frac9 (frac : str) : res Z :=
-  let padded := pad_right 9 frac in
-  t <- slice_to (Z.min 9 (blen padded)) padded ;;
-  match parse_u32 t with Some n => ROk n | None => RErr end.
+  match parse_u32 (take_pad 9 frac) with Some n => ROk n | None => RErr end.
 
 (** [<Time as FromStr>::from_str] *)
 Definition parse_time (s : str) : res sqlvalue :=
@@ -101,9 +103,9 @@ Definition show_time (h mi s ns : Z) : str :=
 
 Definition is_sign (c : Z) : bool := (c =? 43) || (c =? 45).
 
-(** [is_timezone_offset]; [rest[..2]] and [rest[3..]] are byte slices taken after a test on the
-    third *character*; [&&] short-circuits, so [rest[3..]] is only evaluated when the first two
-    bytes are digits *)
+(** [is_timezone_offset]: after the sign the candidate is examined as BYTES
+    ([s[1..].as_bytes()]): length 5 with [rest[2] == b':'] and ASCII digits elsewhere, or length
+    4 / 2 of ASCII digits.  [s[1..]] is the only slice (after an ASCII sign). *)
 Definition is_tz_offset (s : str) : res bool :=
   if blen s <? 3 then ROk false
   else match s with
@@ -111,13 +113,12 @@ Definition is_tz_offset (s : str) : res bool :=
        | sign :: _ =>
            if negb (is_sign sign) then ROk false
            else
-             rest <- slice_from 1 s ;;
-             if (blen rest =? 5) && (match nth_error rest 2 with Some c => c =? 58 | None => false end) then
-               a <- slice_to 2 rest ;;
-               if forallb is_digit a then (b <- slice_from 3 rest ;; ROk (forallb is_digit b))
-               else ROk false
-             else if blen rest =? 4 then ROk (forallb is_digit rest)
-             else if blen rest =? 2 then ROk (forallb is_digit rest)
+             r <- slice_from 1 s ;;
+             let rest := utf8 r in
+             if (length rest =? 5)%nat && (nth 2 rest 0 =? 58) then
+               ROk (forallb is_digit (firstn 2 rest) && forallb is_digit (skipn 3 rest))
+             else if (length rest =? 4)%nat then ROk (forallb is_digit rest)
+             else if (length rest =? 2)%nat then ROk (forallb is_digit rest)
              else ROk false
        end.
 
@@ -178,48 +179,51 @@ Definition show_temporal (v : sqlvalue) : option str :=
 
 (** * INTERVAL  (interval.rs) *)
 
-(** debug-build arithmetic: overflow is a panic *)
-Definition chk (lo hi r : Z) : res Z :=
-  if (lo <=? r) && (r <=? hi) then ROk r else RPanic POverflow.
-Definition mul32 (a b : Z) := chk (-2147483648) 2147483647 (a * b).
-Definition add32 (a b : Z) := chk (-2147483648) 2147483647 (a + b).
-Definition mul64 (a b : Z) := chk (-9223372036854775808) 9223372036854775807 (a * b).
-Definition add64 (a b : Z) := chk (-9223372036854775808) 9223372036854775807 (a + b).
+(** [saturating_mul] / [saturating_add]: the exact result clamped to the type's range *)
+Definition i32_min := -2147483648.
+Definition i32_max := 2147483647.
+Definition i64_min := -9223372036854775808.
+Definition i64_max := 9223372036854775807.
+Definition sat (lo hi r : Z) : Z := Z.max lo (Z.min hi r).
+Definition smul32 (a b : Z) := sat i32_min i32_max (a * b).
+Definition sadd32 (a b : Z) := sat i32_min i32_max (a + b).
+Definition smul64 (a b : Z) := sat i64_min i64_max (a * b).
+Definition sadd64 (a b : Z) := sat i64_min i64_max (a + b).
 
 (** [.parse().unwrap_or(0)] *)
 Definition or0 (o : option Z) : Z := match o with Some v => v | None => 0 end.
 
-(** [parse_seconds_to_microseconds] *)
+(** [parse_seconds_to_microseconds]: [whole.saturating_mul(1_000_000).saturating_add(frac)], the
+    fraction being the first 6 characters of the text after the '.', zero-padded *)
 Definition parse_seconds_us (s : str) : res Z :=
   match find_b (Z.eqb 46) s with
   | Some p =>
       ws <- slice_to p s ;;
       fs <- slice_from (p + 1) s ;;
-      f6 <- slice_to 6 (pad_right 6 fs) ;;
-      m <- mul64 (or0 (parse_i64 ws)) 1000000 ;;
-      add64 m (or0 (parse_i64 f6))
-  | None => mul64 (or0 (parse_i64 s)) 1000000
+      ROk (sadd64 (smul64 (or0 (parse_i64 ws)) 1000000) (or0 (parse_i64 (take_pad 6 fs))))
+  | None => ROk (smul64 (or0 (parse_i64 s)) 1000000)
   end.
 
-(** [parse_time_to_microseconds]: [total += h*3600*1_000_000] etc., each step checked *)
+(** [parse_time_to_microseconds]:
+    [total = total.saturating_add(h.saturating_mul(3600).saturating_mul(1_000_000))] etc. *)
 Definition parse_time_us (s : str) : res Z :=
   let parts := split_on 58 s in
-  t1 <- match parts with
-        | p0 :: _ => match parse_i64 p0 with
-                     | Some h => a <- mul64 h 3600 ;; b <- mul64 a 1000000 ;; add64 0 b
-                     | None => ROk 0
-                     end
-        | [] => ROk 0
-        end ;;
-  t2 <- match parts with
-        | _ :: p1 :: _ => match parse_i64 p1 with
-                          | Some mi => a <- mul64 mi 60 ;; b <- mul64 a 1000000 ;; add64 t1 b
-                          | None => ROk t1
-                          end
-        | _ => ROk t1
-        end ;;
+  let t1 := match parts with
+            | p0 :: _ => match parse_i64 p0 with
+                         | Some h => sadd64 0 (smul64 (smul64 h 3600) 1000000)
+                         | None => 0
+                         end
+            | [] => 0
+            end in
+  let t2 := match parts with
+            | _ :: p1 :: _ => match parse_i64 p1 with
+                              | Some mi => sadd64 t1 (smul64 (smul64 mi 60) 1000000)
+                              | None => t1
+                              end
+            | _ => t1
+            end in
   match parts with
-  | _ :: _ :: p2 :: _ => sec <- parse_seconds_us p2 ;; add64 t2 sec
+  | _ :: _ :: p2 :: _ => sec <- parse_seconds_us p2 ;; ROk (sadd64 t2 sec)
   | _ => ROk t2
   end.
 
@@ -238,20 +242,18 @@ Definition kw_second := lit "SECOND".
 Definition kw_seconds := lit "SECONDS".
 
 (** the compound arm ([... <from> TO <to>]) of [parse_interval], entered when [to_pos >= 2];
-    [parts[to_pos + 1]] is an unchecked index *)
+    [parts.get(to_pos + 1).copied().unwrap_or("")] *)
 Definition interval_compound (parts : list str) (to_pos : nat) : res (Z * Z * Z) :=
   let value_part := nth 0 parts [] in
   let from_unit := nth (to_pos - 1) parts [] in
-  to_unit <- match nth_error parts (to_pos + 1) with Some u => ROk u | None => RPanic PIndex end ;;
+  let to_unit := nth (to_pos + 1) parts [] in
   if eq_ic from_unit kw_year && eq_ic to_unit kw_month then
     match find_b (Z.eqb 45) value_part with
     | Some p =>
         ys <- slice_to p value_part ;;
         ms <- slice_from (p + 1) value_part ;;
-        a <- mul32 (or0 (parse_i32 ys)) 12 ;;
-        mo <- add32 a (or0 (parse_i32 ms)) ;;
-        ROk (mo, 0, 0)
-    | None => mo <- mul32 (or0 (parse_i32 value_part)) 12 ;; ROk (mo, 0, 0)
+        ROk (sadd32 (smul32 (or0 (parse_i32 ys)) 12) (or0 (parse_i32 ms)), 0, 0)
+    | None => ROk (smul32 (or0 (parse_i32 value_part)) 12, 0, 0)
     end
   else if eq_ic from_unit kw_day then
     match find_b (Z.eqb 32) value_part with
@@ -271,13 +273,13 @@ Definition interval_compound (parts : list str) (to_pos : nat) : res (Z * Z * Z)
 Definition interval_simple (value_part unit : str) : res (Z * Z * Z) :=
   let u := to_upper unit in
   if str_eqb u kw_year || str_eqb u kw_years then
-    mo <- mul32 (or0 (parse_i32 value_part)) 12 ;; ROk (mo, 0, 0)
+    ROk (smul32 (or0 (parse_i32 value_part)) 12, 0, 0)
   else if str_eqb u kw_month || str_eqb u kw_months then ROk (or0 (parse_i32 value_part), 0, 0)
   else if str_eqb u kw_day || str_eqb u kw_days then ROk (0, or0 (parse_i32 value_part), 0)
   else if str_eqb u kw_hour || str_eqb u kw_hours then
-    a <- mul64 (or0 (parse_i64 value_part)) 3600 ;; us <- mul64 a 1000000 ;; ROk (0, 0, us)
+    ROk (0, 0, smul64 (smul64 (or0 (parse_i64 value_part)) 3600) 1000000)
   else if str_eqb u kw_minute || str_eqb u kw_minutes then
-    a <- mul64 (or0 (parse_i64 value_part)) 60 ;; us <- mul64 a 1000000 ;; ROk (0, 0, us)
+    ROk (0, 0, smul64 (smul64 (or0 (parse_i64 value_part)) 60) 1000000)
   else if str_eqb u kw_second || str_eqb u kw_seconds then
     us <- parse_seconds_us value_part ;; ROk (0, 0, us)
   else ROk (0, 0, 0).
@@ -313,26 +315,7 @@ Definition show_interval (i : interval) : str := iv_text i.
 (** the value compared by [PartialEq]/[Ord]/[Hash] (C21's model) *)
 Definition interval_value (i : interval) : sqlvalue := VInterval (iv_months i) (iv_days i) (iv_micros i).
 
-(** * The known defect classes (KNOWN_FINDINGS C22), as predicates on the input alone *)
-
-(** a non-ASCII character somewhere after the first '.' *)
-Definition frac_nonascii (s : str) : bool :=
-  match after_first (Z.eqb 46) s with Some f => negb (all_ascii f) | None => false end.
-(** a non-ASCII character somewhere after the last '+' / '-' *)
-Definition tz_nonascii (s : str) : bool :=
-  match after_last is_sign s with Some f => negb (all_ascii f) | None => false end.
-(** the last whitespace-separated word is "TO" (any ASCII case) *)
-Definition to_is_last (s : str) : bool :=
-  match rev (split_ws s) with w :: _ => eq_ic w kw_to | [] => false end.
-(** a run of more than eight ASCII digits *)
-Definition long_number (s : str) : bool := (8 <? max_run s)%nat.
-(** a DATE / TIMESTAMP whose year is negative *)
-Definition negative_year (v : sqlvalue) : bool :=
-  match v with
-  | VDate y _ _ => y <? 0
-  | VTimestamp y _ _ _ _ _ _ => y <? 0
-  | _ => false
-  end.
+(** * Vocabulary of the theorems *)
 
 (** validity of values: exactly what [Date::new] / [Time::new] accept, within the field types *)
 Definition valid_date (y m d : Z) : Prop :=
@@ -354,6 +337,7 @@ Definition parse_as (v : sqlvalue) (t : str) : res sqlvalue :=
   | VTimestamp _ _ _ _ _ _ _ => parse_timestamp t
   | _ => RErr
   end.
-(** byte 9 of the zero-padded fraction is not a character boundary *)
-Definition frac_cut (f : str) : bool :=
-  match bslice_to 9 (pad_right 9 f) with Some _ => false | None => true end.
+(** the three private fields fit their Rust types *)
+Definition triple_in_range (t : Z * Z * Z) : Prop :=
+  match t with (mo, d, us) =>
+    i32_min <= mo <= i32_max /\ i32_min <= d <= i32_max /\ i64_min <= us <= i64_max end.
